@@ -1,5 +1,5 @@
-"""C03: regenerate `paeth_predictor` (pdfminer/utils.py) and the filter-name tuples
-`LITERALS_*_DECODE` / `LITERAL_CRYPT` (pdfminer/pdftypes.py) as Lean."""
+"""C03: regenerate `paeth_predictor` (pdfminer/utils.py), the filter-name tuples
+`LITERALS_*_DECODE` / `LITERAL_CRYPT` and the `_DECODE_ERRORS` class tuple (pdfminer/pdftypes.py) as Lean."""
 import ast
 import os
 from . import py2lean as P
@@ -31,6 +31,19 @@ def generate(lean_dir: str):
             raise P.Untranslatable(f"{name} is not a tuple")
         names = [lit_name(x) for x in e.elts]
         out.append(f"def {name} : List Bytes := [" + ", ".join(P.lean_bytes(n) for n in names) + "]\n")
+    # the exception classes PDFStream.decode turns into an empty result (non-strict)
+    e = P.find_assign(tmod, "_DECODE_ERRORS")
+    if not isinstance(e, ast.Tuple):
+        raise P.Untranslatable("_DECODE_ERRORS is not a tuple")
+    classes = []
+    for x in e.elts:
+        if isinstance(x, ast.Name):
+            classes.append(x.id)
+        elif isinstance(x, ast.Attribute) and isinstance(x.value, ast.Name):
+            classes.append(x.value.id + "." + x.attr)
+        else:
+            raise P.Untranslatable("_DECODE_ERRORS element: " + ast.dump(x)[:60])
+    out.append("def DECODE_ERRORS : List String := [" + ", ".join(P.lean_string(c) for c in classes) + "]\n")
     out.append("def LITERAL_CRYPT : Bytes := " + P.lean_bytes(lit_name(P.find_assign(tmod, "LITERAL_CRYPT"))) + "\n")
     out.append("\nend PdfVerif.Gen.Filters\n")
     path = os.path.join(lean_dir, "PdfVerif", "Gen", "Filters.lean")
